@@ -1,16 +1,33 @@
 import props
 
+
+def runs(tier, seed, replay):
+    if replay:
+        return props.replay_run(replay)
+    n = 1500 if tier == "thorough" else 150
+    return [
+        {"args": ["c18", "--seed", str(seed), "--tier", tier, "--count", str(n)]},
+        # the d4 loader model (a function of the file, no hash-order parameter) = the implementation's vector
+        {"args": ["ld4", "--seed", str(seed), "--tier", tier, "--count", str(n)]},
+    ]
+
+
 CONFIG = {
-    "runs": props.simple("c18", 150, 1500),
-    "status": "partial: C18_attach_order_hash_independent (the repaired loader attaches the missing features in sorted order, which is "
-              "the same for every iteration order of the hash set) and C18_refuted_hash_order (the unrepaired loader: two iteration "
-              "orders give two child orders; reproduced on /repo before the fix 3061960); the whole d4 loader as a Gallina function "
-              "(no hash-order parameter left) is future work, so 'the loaded vector is a function of the file' is decided by the "
-              "correspondence: every file is loaded repeatedly in one process (fresh hash keys per load) and in separate processes, "
-              "node vectors and seeded sample lists must be identical; with C07 (samples are a function of circuit, A, k and the "
-              "recorded choice stream) this gives reproducibility",
+    "runs": runs,
+    "status": "full at model level: the whole d4 loader is a Gallina function (Model/LoadD4.v load_d4_gen: lexer, build_d4_ddnnf on a "
+              "StableGraph model with petgraph's adjacency order / edge and node removal / index recycling, the three traversals, rebuild) "
+              "with the iteration order of the hash set in balance_or_children as an explicit permutation oracle. "
+              "C18_loader_function: for the loader in /repo now (sort after the hash order) the node vector and number_of_variables are the "
+              "same for every two oracles; C18_loader_is_load_d4: and equal the parameter-free load_d4; C18_refuted_loader_v0: the loader "
+              "before fix 3061960 gives two different vectors for two oracles on `o 1 0 / t 2 0 / 1 2 1 2 3 0 / 1 2 -1 0` (vm_compute witness); "
+              "C18_attach_order_hash_independent / C18_refuted_hash_order: the same at the level of one attach list. "
+              "Tie to the code: run ld4 compares load_lines (extracted) with the dumped Ddnnf.nodes exactly (node types, children in order, "
+              "panics) on every d4 file of the C01 input space, boundary files, random d4 DAGs and corpus files; run c18 loads every file "
+              "repeatedly in one process (fresh hash keys per load) and in separate processes: node vectors and seeded sample lists must be "
+              "identical; with C07 (samples are a function of circuit, A, k and the recorded choice stream) this gives reproducibility",
     "assumptions": ["address layout / thread timing: exercised by separate processes only",
-                    "oracle = equality across loads (needs no model)"],
+                    "oracle = equality across loads (needs no model); the exact loader comparison is restricted to vectors of <= 400 (quick) / 1500 (thorough) nodes",
+                    "the oracle is a function of the missing-feature set (one call per balancing And); an order that differs between two calls with the same set is covered by the repaired theorem (sorting) but not by the refutation witness, which needs only one set"],
     "rule": "one case = one generated file loaded 6 (quick) / 20 (thorough) times in-process plus 3 child processes for a sample of files; "
             "non-trivial = flattened circuit has And and Or nodes; distinct = different case body",
 }
